@@ -44,8 +44,12 @@ structure PObj where
   over : Option (String × Slots)
 deriving Repr
 
-/-- `self.__class__.__new__(self.__class__)` -/
+/-- a blank object (nothing in its `__dict__`) -/
 def blank : PObj := ⟨[], none⟩
+
+/-- `cls.__new__(cls)`: a blank instance of the class (the class is that of `self`: it is recorded when the object
+becomes a cell, `finish`) -/
+def newOf (_cls : String) : PObj := blank
 
 /-- `v.copy()` -/
 def callCopy (rec : Rec) (h : Heap) (v : Val) : Except Err (Val × Heap) := (rec h v).map fun r => (r.2, r.1)
